@@ -43,8 +43,10 @@ Theorem C01_env_rows_refuted_by_partial_recycle :
   K_b (run_ops d9_ops (init_st 3)) = true.
 Proof. exact env_rows_refuted_by_partial_recycle. Qed.
 
-(* What is proved of K: it survives dispatch, validate-pending, hold, release and every rejected
-   transaction.  The other operations are not covered (define_step is the refuted one). *)
+(* What is proved of K here: it survives dispatch, validate-pending, hold, release and every
+   rejected transaction, in all states.  The other operations follow below, each with its side
+   conditions (define_step is the refuted one; declare_static, amend_step, reset_for_rerun of plan
+   steps and update_hashes on BUILT / OUTDATED files are not covered). *)
 Theorem C01_K_preserved_partial :
   forall o s, K_b s = true ->
               (K_safe_op o = true \/ (forall s', step_op o s <> Ok s')) ->
@@ -122,6 +124,71 @@ Theorem C01_K_preserved_by_OpExecEnd_success :
                            output_ok f s1 = true \/ In f (file_products_in l is_outdated s1))) ->
     K_b (apply_op s (OpExecEnd l [] CSucceeded hs true wd)) = true.
 Proof. exact K_op_exec_end_success. Qed.
+
+(* The two side conditions above follow from C09's invariant inv_core_b (model/GraphInv.v), which
+   holds in EVERY reachable state without any protocol assumption (C09_reachable_inv_core:
+   forall cap ops, inv_core_b (run_ops ops (init_st cap)) = true).  [single_producer] speaks of
+   ATTACHED files only: a detached file may keep the output edge of a former producer, and K does
+   not look at detached outputs.  Only the boolean is imported here, not C09's proofs. *)
+From SV Require Import model.GraphInv proofs.NoStaleInv proofs.NoStaleOps proofs.NoStaleDelete.
+
+Theorem C01_K_side_conditions_from_C09_invariant :
+  forall s, inv_core_b s = true -> unique_labels s /\ single_producer s.
+Proof.
+  intros s H. split; [exact (inv_core_unique_labels s H)|exact (inv_core_single_producer s H)].
+Qed.
+
+(* startup.reset_interrupted_steps: RUNNING -> FAILED, CHECKING -> PENDING, then every attached
+   FAILED step is marked pending (with propagation) *)
+Theorem C01_K_preserved_by_OpResetInterrupted :
+  forall s, inv_core_b s = true -> K_b s = true -> K_b (apply_op s OpResetInterrupted) = true.
+Proof. exact K_op_reset_interrupted_inv. Qed.
+
+(* Workflow.delete_detached, the cleanup transaction: deleted nodes are detached, have no
+   products and no outgoing edges; the step hashes that after_lost_product removes belong to
+   creators of detached nodes, which are detached themselves *)
+Theorem C01_K_preserved_by_OpDeleteDetached :
+  forall s, inv_core_b s = true -> K_b s = true -> K_b (apply_op s OpDeleteDetached) = true.
+Proof. exact K_op_delete_detached. Qed.
+
+(* Scheduler._reset_step_to_pending (a skip that turned out impossible) of a leaf step:
+   reset_for_rerun, the stored hash is dropped, the step goes back to PENDING *)
+Theorem C01_K_preserved_by_OpResetToPending_leaf :
+  forall l s, inv_core_b s = true -> leaf_step l s ->
+    (forall f, In f (file_products_in l is_built (rr_pre l s)) -> producers_not_succ (rr_pre l s) f) ->
+    K_b s = true -> K_b (apply_op s (OpResetToPending l)) = true.
+Proof. exact K_op_reset_to_pending_leaf_inv. Qed.
+
+(* The end-of-run transaction of a run that FAILED or was DEFERRED (every failure branch of
+   Step.mark_completed: failed, deferred, deferred more often than the cap), for a step that
+   created no steps.  Protocol hypotheses: nothing is reported for the inputs, the files reported
+   with cause FAILED are PLANNED / OUTDATED outputs, no product of the step is BUILT
+   (reset_for_rerun outdated them when the run started).  A plan step that fails detaches the
+   steps it created, which breaks K on purpose until they are re-declared (D4 family). *)
+Theorem C01_K_preserved_by_OpExecEnd_failure_leaf :
+  forall l hs wd s, inv_core_b s = true -> unbuilt_update hs s ->
+    file_products_in l is_built s = [] -> no_created_steps l s -> K_b s = true ->
+    K_b (apply_op s (OpExecEnd l [] CFailed hs false wd)) = true.
+Proof. exact K_op_exec_end_failure_leaf_inv. Qed.
+
+(* The hypotheses are satisfiable: the state after build 1 of the D4 history satisfies the
+   invariant and K; and in the middle of that build (cat is RUNNING after reset_for_rerun) the
+   protocol hypotheses of the failure theorem hold for cat. *)
+Definition d4_cat_running : list op :=
+  boot_ops ++
+  [ OpDeclareStatic k_plan [s_x]; OpUpdateHashes CConfirmed [(s_x, Some 2)];
+    OpDefineStep k_plan s_cat [s_x] [] [s_y] [] NDefault;
+    OpExecEnd s_plan [] CSucceeded [] true false; OpDispatch s_cat; OpResetForRerun s_cat ].
+
+Example C01_K_hypotheses_satisfiable :
+  let s := run_ops d4_build1 (init_st 3) in
+  let t := run_ops d4_cat_running (init_st 3) in
+  inv_core_b s = true /\ K_b s = true /\
+  inv_core_b t = true /\ K_b t = true /\ sstate_of s_cat t = Some SRunning /\
+  file_products_in s_cat is_built t = [] /\ no_created_steps s_cat t /\
+  sstate_of s_cat (apply_op t (OpExecEnd s_cat [] CFailed [] false false)) = Some SFailed /\
+  sstate_of s_cat (apply_op t (OpExecEnd s_cat [] CFailed [] false true)) = Some SPending.
+Proof. vm_compute. repeat split; reflexivity. Qed.
 
 (* ------------------------------------------------------------------------------------------ *)
 (* Abstract engine (model/Engine.v): static-DAG fragment                                       *)
